@@ -262,7 +262,9 @@ def canon(fn, out):
             return [0, out[0]]               # model: (citations, reports)
     if fn == 5:
         if isinstance(out, list) and out and out[0] == 0:
-            return out[1][0]
+            return [0, out[1][0]]
+        if isinstance(out, int):
+            return [0, out]                  # model: the flag
     return out
 
 # ----------------------------------------------------------------------------------------
@@ -290,7 +292,67 @@ def _in_domain(entries):
             return False
     return True
 
+def _fn2_view(arg):
+    """what an engine call of function 2 is about, read independently of pybtex: (style, entries, citations, min_crossrefs)
+    with entries / citations as str; None if the call does not determine them (missing files ...)"""
+    files, call = arg
+    byname = {S(n): (k, c) for n, k, c in files}
+    mode = call[0]
+    if mode == 0:
+        says = U.aux_says({n: [S(l) for l in c] for n, (k, c) in byname.items() if k == 0}, S(call[1]))
+        if says is None:
+            return None
+        style, data, cites = says
+        if call[2]: style = S(call[2][0])
+        fmt = call[3][0] if call[3] else 0
+        srcs = [d + U.SUFFIX[fmt] for d in data]; m = call[4]
+    else:
+        style = S(call[2]); cites = [S(c) for c in call[3][0]] if call[3] else ['*']; m = call[5]
+        fmt = call[4][0] if call[4] else 0
+        srcs = [S(n) for n in call[1]] if mode == 1 else ([S(call[1])] if mode == 3 else None)
+    entries = []
+    if srcs is None:
+        parts = call[1]
+    else:
+        parts = []
+        for n in srcs:
+            if n not in byname or byname[n][0] != 2:
+                return None
+            parts.append(byname[n][1])
+    for f, es in parts:
+        if f != fmt:
+            return None
+        entries += [(S(k), S(t), [(S(a), S(b)) for a, b in fl]) for k, t, fl in es]
+    if style + '.bst' not in byname:
+        return None
+    return style, entries, cites, m
+
+def _fn2_items(arg, out):
+    """the '[key]' header lines of the dump-like synthetic styles"""
+    call = arg[1]
+    if out[0] != 0:
+        return None
+    written, ret = out[1][0], out[1][1]
+    text = S(ret[0]) if ret else (S(written[0][1]) if written else None)
+    if text is None:
+        return None
+    return [l[1:-1] for l in text.split('\n') if l.startswith('[') and l.endswith(']')]
+
 def oracle(fn, arg, out):
+    if fn == 2:
+        v = _fn2_view(arg)
+        if v is not None and v[0] in ('dump', 'rev', 'bytitle') and out[0] == 0:
+            style, entries, cites, m = v
+            items = _fn2_items(arg, out)
+            low = lambda l: [x.lower() for x in l]
+            want = low(U.resolved_spec(entries, cites, m))
+            exp = {'dump': want, 'rev': want[::-1] + want, 'bytitle': None}[style]
+            bad = (sorted(low(items)) != sorted(want)) if exp is None else (low(items) != exp)
+            if bad:
+                fw = low(U.filtered_spec(entries, cites, m))
+                fexp = {'dump': fw, 'rev': fw[::-1] + fw, 'bytitle': None}[style]
+                ok13 = (sorted(low(items)) == sorted(fw)) if fexp is None else (low(items) == fexp)
+                return (PBC if ok13 else '') + 'style %s: items %r are not one per resolved citation, in order: %r' % (style, items, want if exp is None else exp)
     if fn in (3, 5) and not (_in_domain(arg[0]) and (fn == 3 or _in_domain(arg[1]))):
         return None
     if fn == 2:
@@ -370,6 +432,10 @@ def _is_f13(kind, fn, arg, detail):
     is the one that explains: (3) the items are exactly those of BibTeX's one-pass reading, (5) only the file order differs"""
     if kind != 'oracle':
         return False
+    if fn == 2:
+        v = _fn2_view(arg)
+        return (v is not None and str(detail).startswith(PBC)
+                and _f13_shape([[norm(k), norm(t), [[norm(a), norm(b)] for a, b in f]] for k, t, f in v[1]], [norm(c) for c in v[2]]))
     if fn == 3:
         return _f13_shape(arg[0], arg[1]) and str(detail).startswith(PBC)
     if fn == 5:
@@ -489,6 +555,8 @@ def gen_engine(tier, rng):
             auxname = rng.choice(['doc.aux', 'doc.aux', 'doc', 'my.doc.aux', '.aux', 'doc.tex.aux'])
             so = [other] if rng.random() < 0.4 else []
             lines = aux_lines(cites, style, names, rng)
+            if rng.random() < 0.06: lines.insert(rng.randint(0, len(lines)), '\\bibstyle{%s}' % other)     # a second \bibstyle: reported, the first one stays
+            if rng.random() < 0.04: lines.insert(rng.randint(0, len(lines)), '\\bibdata{nofile}')
             if rng.random() < 0.08: lines = [l for l in lines if not l.startswith('\\bibstyle')]
             if rng.random() < 0.05: lines = [l for l in lines if not l.startswith('\\bibdata')]
             if rng.random() < 0.06: names_bad = names + ['nofile']; lines = aux_lines(cites, style, names_bad, rng)
